@@ -79,7 +79,15 @@ notes={"C04-a":"C06 (after the `ch_outer_sni_changed` retry variant was added; C
  "C08-j":"C08 (after the `backend` stage was added: ServerHello / HelloRetryRequest look-alikes cut short or lying about their lengths, behind an accepted connection)",
  "C14-j":"C14 (after the `mixed` stage was added: RRsets holding alias and service records side by side resolve the same with and without cache)",
  "C17-j":"C17 (after Dialer.Resolver was set in Transport mode and every target had to be tried when nothing succeeded); C19 caught it as it was",
- "C20-j":"C20 (after a delegated child zone and a parent record of the same fully qualified name, and targets naming another zone's record, were generated)"}
+ "C20-j":"C20 (after a delegated child zone and a parent record of the same fully qualified name, and targets naming another zone's record, were generated)",
+ "C01-k":"C02 as it was changed for C02-j; C01 after its public names got mixed case (the key set already serves several connections per case)",
+ "C04-k":"C04 (after ech_outer_extensions and encrypted_client_hello extensions with a zero-length body were put into the outer hello)",
+ "C05-k":"C05 (after hellos that fill their record to 16384-d bytes were generated)",
+ "C10-k":"C10 (after a read deadline armed by the caller long after the context ended had to be reported as a timeout)",
+ "C11-k":"C11 (after lists containing an unknown-version entry whose body embeds a valid config were parsed)",
+ "C18-k":"C18 (after the Dialer was also instantiated with an interface type)",
+ "C19-k":"C19 and C14 (after SvcPriority values from the far end of the 16-bit range were generated)",
+ "C20-k":"C20 (after long parameter values made listing pages exceed 16 KiB)"}
 rows=["| Seed | Breaks | Change (summary) | Needs to manifest | Caught by (quick tier) |","|---|---|---|---|---|"]
 for d in sorted(glob.glob('/verif/seeded/*/meta.json')):
     m=json.load(open(d)); sid=m['seed_id']
@@ -95,6 +103,6 @@ end=s.rindex("\n",0,end)+1
 s=s[:start]+"\n".join(rows)+"\n\n"+s[end:]
 import re
 s=re.sub(r"\w+ rounds of sub-agents produced \d+ distinct confirmed changes \(duplicates of an\nearlier idea were dropped\)\. \w+ of them were missed by the version of the\nchecks that existed when they arrived and led to the strengthenings named in\nthe last column; all \d+ are now reported by the quick tier at `VERIF_SEED=1`\.",
- f"Ten rounds of sub-agents produced {n} distinct confirmed changes (duplicates of an\nearlier idea were dropped). {len(notes)} of them were missed by the version of the\nchecks that existed when they arrived and led to the strengthenings named in\nthe last column; all {n} are now reported by the quick tier at `VERIF_SEED=1`.", s)
+ f"Eleven rounds of sub-agents produced {n} distinct confirmed changes (duplicates of an\nearlier idea were dropped). {len(notes)} of them were missed by the version of the\nchecks that existed when they arrived and led to the strengthenings named in\nthe last column; all {n} are now reported by the quick tier at `VERIF_SEED=1`.", s)
 open('/verif/DESIGN.md','w').write(s)
 print(n, len(notes))
